@@ -33,11 +33,25 @@ def bounds(tier):
 
 
 class FakeTime:
+    """Virtual clock. As on a real system the wall clock and the monotonic clocks have unrelated epochs, so code that mixes them
+    (time.time() against time.monotonic()) computes nonsense here exactly as it would in production."""
+
     def __init__(self):
         self.now = 1000.0
 
     def time(self):
-        return self.now
+        return 1_700_000_000.0 + self.now
+
+    def monotonic(self):
+        return 4321.0 + self.now
+
+    perf_counter = monotonic
+
+    def time_ns(self):
+        return int(self.time() * 1e9)
+
+    def monotonic_ns(self):
+        return int(self.monotonic() * 1e9)
 
     def sleep(self, s):
         self.now += s
